@@ -188,9 +188,9 @@ impl<T: Clone> Clone for Range<T> {
 //@@ sig
     requires
         self.wf(),
-        //# C08.range_window_rows_ordered
+        //# C08,C06.range_window_rows_ordered
         start.0 <= end.0,
-        //# C08.range_window_cols_ordered
+        //# C08,C06.range_window_cols_ordered
         start.1 <= end.1,
     ensures
         window_of(r, *self, start, end),
